@@ -1,0 +1,662 @@
+//! Verification hooks. Compiled only with `--cfg sighook_verif`; never part of a normal build.
+//!
+//! The module provides drop-in replacements for the few synchronisation primitives the two
+//! crates use (`atomic::*`, `Mutex`, `thread::yield_now`, `atomic::spin_loop_hint`). Each wrapper
+//! holds the genuine `std` primitive and, around every operation, calls through a process-wide
+//! table of function pointers ([`Hooks`]) that an external model checker installs. With no table
+//! installed every wrapper behaves exactly like the `std` type it wraps, so the ordinary test
+//! suite also passes with the cfg turned on.
+#![allow(missing_docs)]
+#![allow(clippy::all)]
+
+use std::panic::Location;
+use std::sync::atomic::{AtomicPtr as StdAtomicPtr, Ordering as StdOrdering};
+
+pub const OP_LOAD: u8 = 0;
+pub const OP_STORE: u8 = 1;
+pub const OP_SWAP: u8 = 2;
+pub const OP_CAS: u8 = 3;
+pub const OP_CAS_WEAK: u8 = 4;
+pub const OP_FETCH_ADD: u8 = 5;
+pub const OP_FETCH_SUB: u8 = 6;
+pub const OP_FETCH_OR: u8 = 7;
+pub const OP_FETCH_AND: u8 = 8;
+pub const OP_FETCH_XOR: u8 = 9;
+
+pub const ORD_RELAXED: u8 = 0;
+pub const ORD_RELEASE: u8 = 1;
+pub const ORD_ACQUIRE: u8 = 2;
+pub const ORD_ACQREL: u8 = 3;
+pub const ORD_SEQCST: u8 = 4;
+
+/// Directive returned by [`Hooks::pre`]: perform the operation.
+pub const DO_NORMAL: u32 = 0;
+/// Directive returned by [`Hooks::pre`] for a weak compare-exchange: fail spuriously.
+pub const DO_SPURIOUS_FAIL: u32 = 1;
+
+pub const YIELD_THREAD: u8 = 0;
+pub const YIELD_SPIN_HINT: u8 = 1;
+
+/// Description of one atomic operation about to be / just performed.
+#[derive(Clone, Copy, Debug)]
+pub struct Op {
+    pub kind: u8,
+    /// Width of the location in bytes.
+    pub width: u8,
+    pub ord: u8,
+    /// Failure ordering of a compare-exchange (otherwise same as `ord`).
+    pub fail_ord: u8,
+    pub addr: usize,
+    /// Operand: the value stored / added / the expected value of a compare-exchange.
+    pub a: u64,
+    /// The new value of a compare-exchange.
+    pub b: u64,
+    pub file: &'static str,
+    pub line: u32,
+}
+
+/// The table an external checker installs.
+pub struct Hooks {
+    /// Scheduling point before an atomic operation; returns a `DO_*` directive.
+    pub pre: fn(&Op) -> u32,
+    /// Called after the operation really happened. `real` is the value the operation read (old
+    /// value for RMWs; the stored value for plain stores), `ok` whether a compare-exchange
+    /// succeeded. Returns the value the wrapper reports as *read* (allows modelling stale reads).
+    pub post: fn(&Op, real: u64, ok: bool) -> u64,
+    /// An atomic location ceases to exist.
+    pub loc_drop: fn(addr: usize, width: u8),
+    /// Scheduling point before `Mutex::lock` (returns when the lock can be taken uncontended).
+    pub mutex_pre_lock: fn(addr: usize, file: &'static str, line: u32),
+    pub mutex_post_lock: fn(addr: usize, poisoned: bool),
+    pub mutex_pre_unlock: fn(addr: usize),
+    pub yield_hint: fn(kind: u8),
+    /// A named scheduling point before an externally visible effect (syscall).
+    pub sched_point: fn(tag: &'static str, a: u64),
+    /// A named event (no scheduling point).
+    pub event: fn(tag: &'static str, a: u64, b: u64),
+    /// The caller is about to block reading descriptor `fd`.
+    pub blocking_read: fn(fd: i32),
+}
+
+static HOOKS: StdAtomicPtr<Hooks> = StdAtomicPtr::new(std::ptr::null_mut());
+
+/// Installs the table. The table must live for the rest of the process.
+pub fn install(hooks: &'static Hooks) {
+    HOOKS.store(hooks as *const Hooks as *mut Hooks, StdOrdering::SeqCst);
+}
+
+/// Removes the table; wrappers behave like `std` again.
+pub fn uninstall() {
+    HOOKS.store(std::ptr::null_mut(), StdOrdering::SeqCst);
+}
+
+#[inline]
+fn hooks() -> Option<&'static Hooks> {
+    let p = HOOKS.load(StdOrdering::Relaxed);
+    if p.is_null() {
+        None
+    } else {
+        Some(unsafe { &*p })
+    }
+}
+
+#[inline]
+fn ord_code(o: StdOrdering) -> u8 {
+    match o {
+        StdOrdering::Relaxed => ORD_RELAXED,
+        StdOrdering::Release => ORD_RELEASE,
+        StdOrdering::Acquire => ORD_ACQUIRE,
+        StdOrdering::AcqRel => ORD_ACQREL,
+        _ => ORD_SEQCST,
+    }
+}
+
+/// A named scheduling point (no-op without a checker).
+#[inline]
+pub fn sched_point(tag: &'static str, a: u64) {
+    if let Some(h) = hooks() {
+        (h.sched_point)(tag, a);
+    }
+}
+
+/// A named event (no-op without a checker).
+#[inline]
+pub fn event(tag: &'static str, a: u64, b: u64) {
+    if let Some(h) = hooks() {
+        (h.event)(tag, a, b);
+    }
+}
+
+/// Announces a blocking read on `fd` (no-op without a checker).
+#[inline]
+pub fn before_blocking_read(fd: i32) {
+    if let Some(h) = hooks() {
+        (h.blocking_read)(fd);
+    }
+}
+
+pub mod thread {
+    //! Replacement for the bits of `std::thread` the crates use.
+    pub use std::thread::*;
+
+    pub fn yield_now() {
+        match super::hooks() {
+            Some(h) => (h.yield_hint)(super::YIELD_THREAD),
+            None => std::thread::yield_now(),
+        }
+    }
+}
+
+pub mod atomic {
+    //! Replacement for the bits of `std::sync::atomic` the crates use.
+    use super::*;
+    pub use std::sync::atomic::{fence, Ordering};
+    use std::sync::atomic as sa;
+
+    pub fn spin_loop_hint() {
+        match hooks() {
+            Some(h) => (h.yield_hint)(YIELD_SPIN_HINT),
+            None => std::hint::spin_loop(),
+        }
+    }
+
+    #[inline]
+    fn mkop(
+        kind: u8,
+        width: u8,
+        ord: Ordering,
+        fail: Ordering,
+        addr: usize,
+        a: u64,
+        b: u64,
+        loc: &'static Location<'static>,
+    ) -> Op {
+        Op {
+            kind,
+            width,
+            ord: ord_code(ord),
+            fail_ord: ord_code(fail),
+            addr,
+            a,
+            b,
+            file: loc.file(),
+            line: loc.line(),
+        }
+    }
+
+    macro_rules! int_atomic {
+        ($name:ident, $std:ident, $t:ty, $to:expr, $from:expr, $width:expr) => {
+            #[repr(transparent)]
+            pub struct $name(sa::$std);
+
+            impl $name {
+                pub const fn new(v: $t) -> Self {
+                    $name(sa::$std::new(v))
+                }
+                #[inline]
+                fn addr(&self) -> usize {
+                    &self.0 as *const _ as usize
+                }
+                pub fn get_mut(&mut self) -> &mut $t {
+                    self.0.get_mut()
+                }
+                pub fn into_inner(self) -> $t {
+                    self.0.load(Ordering::Relaxed)
+                }
+                #[track_caller]
+                pub fn load(&self, o: Ordering) -> $t {
+                    match hooks() {
+                        None => self.0.load(o),
+                        Some(h) => {
+                            let op = mkop(OP_LOAD, $width, o, o, self.addr(), 0, 0, Location::caller());
+                            (h.pre)(&op);
+                            let real = self.0.load(o);
+                            $from((h.post)(&op, $to(real), true))
+                        }
+                    }
+                }
+                #[track_caller]
+                pub fn store(&self, v: $t, o: Ordering) {
+                    match hooks() {
+                        None => self.0.store(v, o),
+                        Some(h) => {
+                            let op = mkop(OP_STORE, $width, o, o, self.addr(), $to(v), 0, Location::caller());
+                            (h.pre)(&op);
+                            self.0.store(v, o);
+                            (h.post)(&op, $to(v), true);
+                        }
+                    }
+                }
+                #[track_caller]
+                pub fn swap(&self, v: $t, o: Ordering) -> $t {
+                    match hooks() {
+                        None => self.0.swap(v, o),
+                        Some(h) => {
+                            let op = mkop(OP_SWAP, $width, o, o, self.addr(), $to(v), 0, Location::caller());
+                            (h.pre)(&op);
+                            let real = self.0.swap(v, o);
+                            (h.post)(&op, $to(real), true);
+                            real
+                        }
+                    }
+                }
+                #[track_caller]
+                pub fn compare_exchange(
+                    &self,
+                    current: $t,
+                    new: $t,
+                    success: Ordering,
+                    failure: Ordering,
+                ) -> Result<$t, $t> {
+                    match hooks() {
+                        None => self.0.compare_exchange(current, new, success, failure),
+                        Some(h) => {
+                            let op = mkop(OP_CAS, $width, success, failure, self.addr(), $to(current), $to(new), Location::caller());
+                            (h.pre)(&op);
+                            let r = self.0.compare_exchange(current, new, success, failure);
+                            match r {
+                                Ok(v) => {
+                                    (h.post)(&op, $to(v), true);
+                                    Ok(v)
+                                }
+                                Err(v) => Err($from((h.post)(&op, $to(v), false))),
+                            }
+                        }
+                    }
+                }
+                #[track_caller]
+                pub fn compare_exchange_weak(
+                    &self,
+                    current: $t,
+                    new: $t,
+                    success: Ordering,
+                    failure: Ordering,
+                ) -> Result<$t, $t> {
+                    match hooks() {
+                        None => self.0.compare_exchange_weak(current, new, success, failure),
+                        Some(h) => {
+                            let op = mkop(OP_CAS_WEAK, $width, success, failure, self.addr(), $to(current), $to(new), Location::caller());
+                            if (h.pre)(&op) == DO_SPURIOUS_FAIL {
+                                // A spurious failure: nothing is written, the current value is
+                                // reported (it may well equal `current`).
+                                let v = self.0.load(failure);
+                                return Err($from((h.post)(&op, $to(v), false)));
+                            }
+                            // The strong form: whether it fails is decided by the value alone.
+                            let r = self.0.compare_exchange(current, new, success, failure);
+                            match r {
+                                Ok(v) => {
+                                    (h.post)(&op, $to(v), true);
+                                    Ok(v)
+                                }
+                                Err(v) => Err($from((h.post)(&op, $to(v), false))),
+                            }
+                        }
+                    }
+                }
+                #[track_caller]
+                pub fn fetch_update<F>(
+                    &self,
+                    set_order: Ordering,
+                    fetch_order: Ordering,
+                    mut f: F,
+                ) -> Result<$t, $t>
+                where
+                    F: FnMut($t) -> Option<$t>,
+                {
+                    let mut prev = self.load(fetch_order);
+                    while let Some(next) = f(prev) {
+                        match self.compare_exchange_weak(prev, next, set_order, fetch_order) {
+                            x @ Ok(_) => return x,
+                            Err(next_prev) => prev = next_prev,
+                        }
+                    }
+                    Err(prev)
+                }
+            }
+
+            impl Default for $name {
+                fn default() -> Self {
+                    $name(Default::default())
+                }
+            }
+
+            impl std::fmt::Debug for $name {
+                fn fmt(&self, f: &mut std::fmt::Formatter) -> std::fmt::Result {
+                    std::fmt::Debug::fmt(&self.0, f)
+                }
+            }
+
+            impl Drop for $name {
+                fn drop(&mut self) {
+                    if let Some(h) = hooks() {
+                        (h.loc_drop)(self.addr(), $width);
+                    }
+                }
+            }
+        };
+    }
+
+    macro_rules! int_rmw {
+        ($name:ident, $t:ty, $to:expr, $width:expr, $( ($m:ident, $k:expr) ),*) => {
+            impl $name {
+                $(
+                #[track_caller]
+                pub fn $m(&self, v: $t, o: Ordering) -> $t {
+                    match hooks() {
+                        None => self.0.$m(v, o),
+                        Some(h) => {
+                            let op = mkop($k, $width, o, o, self.addr(), $to(v), 0, Location::caller());
+                            (h.pre)(&op);
+                            let real = self.0.$m(v, o);
+                            (h.post)(&op, $to(real), true);
+                            real
+                        }
+                    }
+                }
+                )*
+            }
+        };
+    }
+
+    int_atomic!(AtomicUsize, AtomicUsize, usize, |v: usize| v as u64, |v: u64| v as usize, 8);
+    int_rmw!(AtomicUsize, usize, |v: usize| v as u64, 8,
+        (fetch_add, OP_FETCH_ADD), (fetch_sub, OP_FETCH_SUB), (fetch_or, OP_FETCH_OR),
+        (fetch_and, OP_FETCH_AND), (fetch_xor, OP_FETCH_XOR));
+    int_atomic!(AtomicU16, AtomicU16, u16, |v: u16| v as u64, |v: u64| v as u16, 2);
+    int_rmw!(AtomicU16, u16, |v: u16| v as u64, 2,
+        (fetch_add, OP_FETCH_ADD), (fetch_sub, OP_FETCH_SUB), (fetch_or, OP_FETCH_OR),
+        (fetch_and, OP_FETCH_AND), (fetch_xor, OP_FETCH_XOR));
+    int_atomic!(AtomicBool, AtomicBool, bool, |v: bool| v as u64, |v: u64| v != 0, 1);
+    int_rmw!(AtomicBool, bool, |v: bool| v as u64, 1,
+        (fetch_or, OP_FETCH_OR), (fetch_and, OP_FETCH_AND), (fetch_xor, OP_FETCH_XOR));
+
+    #[repr(transparent)]
+    pub struct AtomicPtr<T>(sa::AtomicPtr<T>);
+
+    impl<T> AtomicPtr<T> {
+        pub const fn new(v: *mut T) -> Self {
+            AtomicPtr(sa::AtomicPtr::new(v))
+        }
+        #[inline]
+        fn addr(&self) -> usize {
+            &self.0 as *const _ as usize
+        }
+        pub fn get_mut(&mut self) -> &mut *mut T {
+            self.0.get_mut()
+        }
+        pub fn into_inner(self) -> *mut T {
+            self.0.load(Ordering::Relaxed)
+        }
+        #[track_caller]
+        pub fn load(&self, o: Ordering) -> *mut T {
+            match hooks() {
+                None => self.0.load(o),
+                Some(h) => {
+                    let op = mkop(OP_LOAD, 8, o, o, self.addr(), 0, 0, Location::caller());
+                    (h.pre)(&op);
+                    let real = self.0.load(o);
+                    (h.post)(&op, real as usize as u64, true) as usize as *mut T
+                }
+            }
+        }
+        #[track_caller]
+        pub fn store(&self, v: *mut T, o: Ordering) {
+            match hooks() {
+                None => self.0.store(v, o),
+                Some(h) => {
+                    let op = mkop(OP_STORE, 8, o, o, self.addr(), v as usize as u64, 0, Location::caller());
+                    (h.pre)(&op);
+                    self.0.store(v, o);
+                    (h.post)(&op, v as usize as u64, true);
+                }
+            }
+        }
+        #[track_caller]
+        pub fn swap(&self, v: *mut T, o: Ordering) -> *mut T {
+            match hooks() {
+                None => self.0.swap(v, o),
+                Some(h) => {
+                    let op = mkop(OP_SWAP, 8, o, o, self.addr(), v as usize as u64, 0, Location::caller());
+                    (h.pre)(&op);
+                    let real = self.0.swap(v, o);
+                    (h.post)(&op, real as usize as u64, true);
+                    real
+                }
+            }
+        }
+        #[track_caller]
+        pub fn compare_exchange(
+            &self,
+            current: *mut T,
+            new: *mut T,
+            success: Ordering,
+            failure: Ordering,
+        ) -> Result<*mut T, *mut T> {
+            match hooks() {
+                None => self.0.compare_exchange(current, new, success, failure),
+                Some(h) => {
+                    let op = mkop(OP_CAS, 8, success, failure, self.addr(), current as usize as u64, new as usize as u64, Location::caller());
+                    (h.pre)(&op);
+                    match self.0.compare_exchange(current, new, success, failure) {
+                        Ok(v) => {
+                            (h.post)(&op, v as usize as u64, true);
+                            Ok(v)
+                        }
+                        Err(v) => Err((h.post)(&op, v as usize as u64, false) as usize as *mut T),
+                    }
+                }
+            }
+        }
+        #[track_caller]
+        pub fn compare_exchange_weak(
+            &self,
+            current: *mut T,
+            new: *mut T,
+            success: Ordering,
+            failure: Ordering,
+        ) -> Result<*mut T, *mut T> {
+            match hooks() {
+                None => self.0.compare_exchange_weak(current, new, success, failure),
+                Some(h) => {
+                    let op = mkop(OP_CAS_WEAK, 8, success, failure, self.addr(), current as usize as u64, new as usize as u64, Location::caller());
+                    if (h.pre)(&op) == DO_SPURIOUS_FAIL {
+                        let v = self.0.load(failure);
+                        return Err((h.post)(&op, v as usize as u64, false) as usize as *mut T);
+                    }
+                    match self.0.compare_exchange(current, new, success, failure) {
+                        Ok(v) => {
+                            (h.post)(&op, v as usize as u64, true);
+                            Ok(v)
+                        }
+                        Err(v) => Err((h.post)(&op, v as usize as u64, false) as usize as *mut T),
+                    }
+                }
+            }
+        }
+    }
+
+    impl<T> Default for AtomicPtr<T> {
+        fn default() -> Self {
+            AtomicPtr(Default::default())
+        }
+    }
+
+    impl<T> std::fmt::Debug for AtomicPtr<T> {
+        fn fmt(&self, f: &mut std::fmt::Formatter) -> std::fmt::Result {
+            std::fmt::Debug::fmt(&self.0, f)
+        }
+    }
+
+    impl<T> Drop for AtomicPtr<T> {
+        fn drop(&mut self) {
+            if let Some(h) = hooks() {
+                (h.loc_drop)(self.addr(), 8);
+            }
+        }
+    }
+}
+
+pub mod sync {
+    //! Replacement for `std::sync::{Mutex, MutexGuard}`; poisoning is the real `std` poisoning.
+    use super::hooks;
+    use std::mem::ManuallyDrop;
+    use std::ops::{Deref, DerefMut};
+    use std::panic::Location;
+    pub use std::sync::{Arc, LockResult, PoisonError, TryLockError, TryLockResult};
+
+    pub struct Mutex<T: ?Sized> {
+        inner: std::sync::Mutex<T>,
+    }
+
+    pub struct MutexGuard<'a, T: ?Sized + 'a> {
+        guard: ManuallyDrop<std::sync::MutexGuard<'a, T>>,
+        addr: usize,
+    }
+
+    impl<T> Mutex<T> {
+        pub const fn new(t: T) -> Self {
+            Mutex {
+                inner: std::sync::Mutex::new(t),
+            }
+        }
+        pub fn into_inner(self) -> LockResult<T> {
+            self.inner.into_inner()
+        }
+    }
+
+    impl<T: ?Sized> Mutex<T> {
+        #[inline]
+        fn addr(&self) -> usize {
+            &self.inner as *const _ as *const () as usize
+        }
+        #[track_caller]
+        pub fn lock(&self) -> LockResult<MutexGuard<'_, T>> {
+            let addr = self.addr();
+            if let Some(h) = hooks() {
+                let loc = Location::caller();
+                (h.mutex_pre_lock)(addr, loc.file(), loc.line());
+            }
+            let r = self.inner.lock();
+            if let Some(h) = hooks() {
+                (h.mutex_post_lock)(addr, r.is_err());
+            }
+            match r {
+                Ok(g) => Ok(MutexGuard {
+                    guard: ManuallyDrop::new(g),
+                    addr,
+                }),
+                Err(p) => Err(PoisonError::new(MutexGuard {
+                    guard: ManuallyDrop::new(p.into_inner()),
+                    addr,
+                })),
+            }
+        }
+        pub fn is_poisoned(&self) -> bool {
+            self.inner.is_poisoned()
+        }
+        pub fn get_mut(&mut self) -> LockResult<&mut T> {
+            self.inner.get_mut()
+        }
+    }
+
+    impl<T: ?Sized + Default> Default for Mutex<T> {
+        fn default() -> Self {
+            Mutex::new(Default::default())
+        }
+    }
+
+    impl<T: ?Sized + std::fmt::Debug> std::fmt::Debug for Mutex<T> {
+        fn fmt(&self, f: &mut std::fmt::Formatter) -> std::fmt::Result {
+            // Never lock here (Debug may be called by a checker while a model thread owns it).
+            f.write_str("Mutex { .. }")
+        }
+    }
+
+    impl<'a, T: ?Sized> Deref for MutexGuard<'a, T> {
+        type Target = T;
+        fn deref(&self) -> &T {
+            &self.guard
+        }
+    }
+
+    impl<'a, T: ?Sized> DerefMut for MutexGuard<'a, T> {
+        fn deref_mut(&mut self) -> &mut T {
+            &mut self.guard
+        }
+    }
+
+    impl<'a, T: ?Sized> Drop for MutexGuard<'a, T> {
+        fn drop(&mut self) {
+            if let Some(h) = hooks() {
+                (h.mutex_pre_unlock)(self.addr);
+            }
+            unsafe { ManuallyDrop::drop(&mut self.guard) };
+        }
+    }
+}
+
+/// Re-creates the process-global registry from scratch (ids, generations, counters all as in a
+/// fresh process). The caller guarantees that no registry call and no signal handler is running
+/// and restores the kernel's dispositions itself.
+pub fn reset_registry() {
+    use std::collections::HashMap;
+    let _ = super::GlobalData::ensure();
+    unsafe {
+        let slot = &mut *std::ptr::addr_of_mut!(super::GLOBAL_DATA);
+        *slot = Some(super::GlobalData {
+            data: super::HalfLock::new(super::SignalData {
+                signals: HashMap::new(),
+                next_id: 1,
+            }),
+            race_fallback: super::HalfLock::new(None),
+        });
+    }
+}
+
+/// Address of the library's signal handler, as found in `sigaction::sa_sigaction`.
+pub fn handler_address() -> usize {
+    super::handler as usize
+}
+
+/// Thin public wrapper over the crate-private half-lock, for small-scope exploration.
+pub struct HalfLockProbe<T>(super::HalfLock<T>);
+
+pub struct ProbeReadGuard<'a, T: 'a>(super::half_lock::ReadGuard<'a, T>);
+
+pub struct ProbeWriteGuard<'a, T: 'a>(super::half_lock::WriteGuard<'a, T>);
+
+impl<T> HalfLockProbe<T> {
+    pub fn new(data: T) -> Self {
+        HalfLockProbe(super::HalfLock::new(data))
+    }
+    pub fn read(&self) -> ProbeReadGuard<'_, T> {
+        ProbeReadGuard(self.0.read())
+    }
+    pub fn write(&self) -> ProbeWriteGuard<'_, T> {
+        ProbeWriteGuard(self.0.write())
+    }
+}
+
+impl<'a, T> std::ops::Deref for ProbeReadGuard<'a, T> {
+    type Target = T;
+    fn deref(&self) -> &T {
+        &self.0
+    }
+}
+
+impl<'a, T> std::ops::Deref for ProbeWriteGuard<'a, T> {
+    type Target = T;
+    fn deref(&self) -> &T {
+        &self.0
+    }
+}
+
+impl<'a, T> ProbeWriteGuard<'a, T> {
+    pub fn store(&mut self, val: T) {
+        self.0.store(val)
+    }
+}
+
+unsafe impl<T: Send + Sync> Sync for HalfLockProbe<T> {}
+unsafe impl<T: Send> Send for HalfLockProbe<T> {}
